@@ -51,14 +51,53 @@ pub fn run(ctx: &Ctx) -> Report {
             acc
         })
         .reduce(Acc::default, |a, b| a.merge(b));
+    // (2) type sweep: every 16-bit attribute type at every position class of small templates
+    // (alone, before / after an integrity attribute, before / after a FINGERPRINT, between)
+    let (c0, m0, t0) = hv[0];
+    let acc_types = (0..=0xFFFFu32)
+        .into_par_iter()
+        .fold(Acc::default, |mut acc, x| {
+            for b in type_sweep_buffers(c0, m0, t0, x as u16) {
+                let case = Case::new("parse", b).text(&["type-sweep"]);
+                acc.nontrivial += 1;
+                judge_guarded(judge, &case, &mut acc);
+            }
+            acc
+        })
+        .reduce(Acc::default, |a, b| a.merge(b));
+    let acc = acc.merge(acc_types);
     Report {
         acc,
         exhaustive: true,
-        rule: "all attribute skeletons over {OPT,SW x len 0/1/3/4, MI, MI256, FP ok, FP bad} to the stated depth x 3 header variants; on each: every cut point, header-length perturbation, excess variant, per-attribute length perturbation, top bits, every cookie bit, non-zero padding; distinct_nontrivial counts fault-free skeleton buffers".into(),
+        rule: "all attribute skeletons over {OPT,SW x len 0/1/3/4, MI, MI256, FP ok, FP bad} to the stated depth x 3 header variants; on each: every cut point, header-length perturbation, excess variant, per-attribute length perturbation, top bits, every cookie bit, non-zero padding; plus every 16-bit attribute type (value length 0 and 5) at each position of 10 templates around MI / MI256 / FP; distinct_nontrivial counts fault-free skeleton buffers".into(),
         bounds: json!({"skeletons": n_sk, "full_alphabet_depth": n_full, "small_alphabet_depth": n_small, "header_variants": 3, "faults": "single"}),
         assumptions: vec!["buffers outside the grammar alphabets and with two or more independent faults are not explored".into()],
         ..Default::default()
     }
+}
+
+/// Buffers that place an attribute of type `x` alone, before and after each ending attribute.
+pub fn type_sweep_buffers(c: u8, m: u16, t: u128, x: u16) -> Vec<Vec<u8>> {
+    let mut out = Vec::new();
+    let val5 = [0x61u8, 0x62, 0x63, 0x64, 0x65];
+    // templates: sequence of slots; 'X' = the swept type, others = skeleton tokens
+    let templates: [&[u8]; 10] = [b"X", b"x", b"SX", b"XM", b"MX", b"XF", b"FX", b"NX", b"MXF", b"XSM"];
+    for tpl in templates {
+        let mut b = wire::encode_header(c, m, t, 0);
+        for s in tpl.iter() {
+            match s {
+                b'X' => wire::append_raw(&mut b, x, &[]),
+                b'x' => wire::append_raw(&mut b, x, &val5),
+                b'S' => wire::append_raw(&mut b, 0x8022, b"sw"),
+                b'M' => wire::append_mi(&mut b, engine_in::KEY),
+                b'N' => wire::append_mi256(&mut b, engine_in::KEY, 32),
+                b'F' => wire::append_fp(&mut b),
+                _ => unreachable!(),
+            }
+        }
+        out.push(b);
+    }
+    out
 }
 
 fn cause_matches(c: &Cause, e: &PErr) -> bool {
